@@ -163,6 +163,29 @@ def rdd2_alloc_specs():
     return [fn_spec("rdd2.control_allocation", f, cuts=("F_moment", "F_thrust"))]
 
 
+def bezier_specs():
+    import cyecca.models.bezier as bz
+    S = []
+    for N in range(1, 8):
+        def build(P, T, t, N=N):
+            B = bz.Bezier(P, T)
+            outs = [("p", B.eval(t))]
+            outs.append(("d", ca.vertcat(*[B.deriv(m).eval(t) for m in range(1, N + 1)])))
+            return outs
+        S.append(Spec("bezier.eval%d" % N, [("P", (1, N + 1)), ("T", (1, 1)), ("t", (1, 1))], build))
+    def build3(P, T, t):
+        B = bz.Bezier(P, T)
+        return [("p", B.eval(t)), ("d1", B.deriv(1).eval(t)), ("d2", B.deriv(2).eval(t))]
+    S.append(Spec("bezier.eval3_dim3", [("P", (3, 4)), ("T", (1, 1)), ("t", (1, 1))], build3))
+    d7, d3 = bz.derive_bezier7(), bz.derive_bezier3()
+    S.append(fn_spec("bezier.bezier7_solve", d7["bezier7_solve"]))
+    S.append(fn_spec("bezier.bezier7_traj", d7["bezier7_traj"]))
+    S.append(fn_spec("bezier.bezier3_solve", d3["bezier3_solve"]))
+    S.append(fn_spec("bezier.bezier3_traj", d3["bezier3_traj"]))
+    S.append(fn_spec("bezier.bezier_multirotor", bz.derive_multirotor()["bezier_multirotor"]))
+    return S
+
+
 MODULES = {
     "Series": (series_specs, ()),
     "SO2": (so2_specs, ("Series",)),
@@ -173,4 +196,5 @@ MODULES = {
     "SE23": (se23_specs, ("Series",)),
     "Products": (product_specs, ("Series",)),
     "Alloc": (rdd2_alloc_specs, ("Series",)),
+    "Bezier": (bezier_specs, ("Series",)),
 }
